@@ -5,6 +5,7 @@ package target
 import (
 	"context"
 	"errors"
+	"strings"
 	"sync"
 
 	"github.com/beevik/etree"
@@ -47,6 +48,8 @@ type vncDriver struct {
 
 	calls  []vncCall
 	closed bool
+	// free text inside the error of a rejected rpc ("" = a fixed text)
+	errText string
 
 	// device model: content of the candidate datastore not yet committed, and
 	// what every successful commit / direct edit made effective.
@@ -68,11 +71,16 @@ func vncReply(warning bool) *types.NetconfResponse {
 	return types.NewNetconfResponse(doc)
 }
 
-func vncErr(out int) error {
+func (d *vncDriver) err(out int) error {
 	switch out {
 	case vncOutEOF:
 		return errors.New("read tcp: unexpected EOF")
 	case vncOutError:
+		if d.errText != "" {
+			// the text of the real driver's error for a rejected rpc (scrapligo response.OperationError):
+			// it quotes the rpc sent and the device's reply - free text the device / the operator chose
+			return errors.New("operation error from input '<edit-config/>'. matched error sub-string 'rpc-error'. full output: '<rpc-error><error-message>" + d.errText + "</error-message></rpc-error>'")
+		}
 		return errors.New("operation failed: rpc-error")
 	}
 	return nil
@@ -89,7 +97,7 @@ func (d *vncDriver) rec(c vncCall) { d.calls = append(d.calls, c) }
 
 func (d *vncDriver) EditConfig(target string, cfg string) (*types.NetconfResponse, error) {
 	out := vncPick("edit", d.editOuts)
-	err := vncErr(out)
+	err := d.err(out)
 	d.rec(vncCall{op: vncOpEdit, ds: target, cfg: cfg, failed: err != nil, eof: out == vncOutEOF})
 	if target == "candidate" {
 		// a failing edit-config may have been applied in part (RFC 6241
@@ -106,7 +114,7 @@ func (d *vncDriver) EditConfig(target string, cfg string) (*types.NetconfRespons
 
 func (d *vncDriver) Commit() error {
 	out := vncPick("commit", d.commitOuts)
-	err := vncErr(out)
+	err := d.err(out)
 	d.rec(vncCall{op: vncOpCommit, failed: err != nil, eof: out == vncOutEOF})
 	if err == nil {
 		d.committed = append(d.committed, d.pending)
@@ -117,7 +125,7 @@ func (d *vncDriver) Commit() error {
 
 func (d *vncDriver) Discard() error {
 	out := vncPick("discard", d.discardOuts)
-	err := vncErr(out)
+	err := d.err(out)
 	d.rec(vncCall{op: vncOpDiscard, failed: err != nil, eof: out == vncOutEOF})
 	if err == nil {
 		d.pending = nil
@@ -244,6 +252,10 @@ func vncNetconfSet(editOuts []int) {
 		commitOuts:  []int{vncOutOK, vncOutEOF, vncOutError},
 		discardOuts: []int{vncOutOK, vncOutEOF, vncOutError},
 	}
+	if verifrt.Param("errtext", 0) == 1 {
+		// the device's rpc-error carries an arbitrary short text
+		drv.errText = verifrt.Chars("errtext", 3, "EOFeof")
+	}
 	src := &vncSource{kind: docKind}
 	t := vncTarget(drv, ds, includeNS, opWithNS, useRemove)
 
@@ -340,9 +352,13 @@ func vncNetconfSet(editOuts []int) {
 		verifrt.Assert(len(drv.committed) == 0, "failed-change-is-not-committed")
 		if !fc.eof {
 			// live connection: the candidate must be cleaned before Set returns
-			if fc.op == vncOpEdit {
+			switch {
+			case strings.Contains(drv.errText, "EOF") && !discardAfterFail:
+				// the device rejected the rpc over a live session, and its error text happens to contain "EOF"
+				verifrt.Assert(false, "discard-after-rejected-rpc/device-error-text-contains-EOF")
+			case fc.op == vncOpEdit:
 				verifrt.Assert(discardAfterFail, "discard-after-failed-edit-config")
-			} else {
+			default:
 				verifrt.Assert(discardAfterFail, "discard-after-failed-commit")
 			}
 			verifrt.Assert(discards <= 1, "at-most-one-discard")
